@@ -43,8 +43,16 @@ def main():
                 ctx.extra['leanchecker'] = 'ok' if ok else out
                 if not ok:
                     audit['broken'].append('leanchecker rejected ChiProofs.Props.%s: %s' % (prop, out[-300:]))
+        changed = core.anchor_changes(prop)
+        ctx.extra['anchored_files_changed'] = changed
         try:
             mod.run(ctx)
+            if changed and tier == 'quick':
+                # the modelled code was edited since the hashes were recorded: explore three times as much
+                for extra in (1, 2):
+                    ctx.seed = seed + 7919 * extra
+                    mod.run(ctx)
+                ctx.seed = seed
         except (core.BadOp, RuntimeError, OSError, MemoryError, KeyboardInterrupt):
             raise          # the machinery itself is broken: exit 2 below
         except Exception as e:  # noqa
